@@ -80,6 +80,8 @@ def _benign(f, w):
         return True        # in-place use of a parameter: judged by the C13.args clause (does it reach an argument of the entry?)
     if f.cls in ('Surface', 'ObjectSurface', 'ImageSurface') and bk == 'self' and kind == 'attr' and attr in RECORD:
         return True                                    # per-surface *record* fields
+    if kind == 'attr' and attr in RECORD and '.surfaces[' in text:
+        return True                                    # a per-surface *record* field written through the surface list (Optic.trace, a9d2415)
     if f.cls == 'Aberrations' and bk == 'self' and kind == 'attr' and attr.startswith('_'):
         return True                                    # its pre-computation cache
     if f.cls == 'Aberrations' and bk == 'self' and kind == 'inplace' and text.startswith('self._'):
